@@ -1,6 +1,9 @@
-/* Contracts for unit assets_fs (C20, call-order part). */
+/* Contracts for unit assets_fs (C20, call-order part). Top-level clauses are written from the property: "the bytes returned are those
+ * of a regular file whose resolved location lies inside the configured static (or template) root, or the request is refused; ... also when
+ * the file named by the final path component is replaced by a symbolic link while the lookup runs" (-> O_NOFOLLOW on the checked path). */
 
-/* isContained(base, target): exact over the (arbitrary) result of target.lexically_relative(base):
+/* ------------------------------------------------------------------------------------------------------------------------------
+ * isContained(base, target): exact over the (arbitrary) result of target.lexically_relative(base):
  * true  iff  the relative path is non-empty and its first component is not "..". */
 #define IC_REL (G_path[target->id].last_rel - 1)
 bool Assets_isContained_contract(const iora_path *base, const iora_path *target)
@@ -20,4 +23,94 @@ void h_isContained(void)
   bool r = Assets_isContained(b, t);
   IORA_CANARY("h_isContained: returns");
   if (r) { IORA_CANARY("h_isContained: contained"); } else { IORA_CANARY("h_isContained: not contained"); }
+}
+
+/* ------------------------------------------------------------------------------------------------------------------------------
+ * readFile(p): assumed contract of the reader. Its REQUIRES is the ordering clause of the property; replacing the call by this
+ * contract makes it an obligation at every call site:  (i) p came out of weakly_canonical, (ii) lexically_relative(p, root) was
+ * non-empty and did not start with "..", root being the one canonicalised at construction, (iii) is_regular_file(p) said yes
+ * (or p is the ".gz" sibling of such a path and is_regular_file(sibling) said yes). */
+iora_optstr Assets_readFile(const iora_path *p);
+iora_optstr Assets_readFile_contract(const iora_path *p)
+__CPROVER_requires(IORA_TRUE && G_root_kind != 0)
+/* O1 */ __CPROVER_requires(P_OPEN_OK(p->id))
+__CPROVER_assigns(G_fs_calls)
+__CPROVER_ensures(G_fs_calls == __CPROVER_old(G_fs_calls) + 1)
+__CPROVER_ensures(__CPROVER_return_value == NULL || (__CPROVER_is_fresh(__CPROVER_return_value, sizeof(iora_strobj))
+    && __CPROVER_return_value->present && __CPROVER_return_value->read_ok && __CPROVER_return_value->src == p->id))
+;
+
+/* the first two statements of readFile (POSIX branch): under readFile's precondition, ::open receives exactly p with O_NOFOLLOW, read-only */
+bool Assets_readFile_open_contract(const iora_path *p, iora_strobj *iora_ret)
+__CPROVER_requires(IORA_TRUE && __CPROVER_is_fresh(p, sizeof(*p)) && __CPROVER_is_fresh(iora_ret, sizeof(*iora_ret)))
+__CPROVER_requires(G_root_kind != 0 && P_OPEN_OK(p->id) && G_open_calls == 0 && G_fs_calls < 1000)
+__CPROVER_assigns(*iora_ret, G_fs_calls, G_open_calls, G_open_id, G_open_flags)
+/* O2 */ __CPROVER_ensures(G_open_calls == 1 && G_open_id == p->id)
+/* O3 */ __CPROVER_ensures((G_open_flags & O_NOFOLLOW) != 0 && (G_open_flags & O_ACCMODE) == O_RDONLY)
+;
+void h_readFile_open(void)
+{
+  const iora_path *p; iora_strobj *r;
+  Assets_readFile_open(p, r);
+  IORA_CANARY("h_readFile_open: returns");
+}
+
+/* ------------------------------------------------------------------------------------------------------------------------------
+ * buildEntry(file): called with a fully checked path; reads it and (if is_regular_file says yes) its ".gz" sibling; nothing else. */
+iora_entry Assets_buildEntry_contract(const iora_path *file)
+__CPROVER_requires(IORA_TRUE && __CPROVER_is_fresh(file, sizeof(*file)) && G_npaths <= 8 && file->id < G_npaths && G_root_kind != 0 && G_fs_calls < 1000)
+/* O4 the ordering clause again, one level up */
+__CPROVER_requires(P_READ_OK(file->id))
+__CPROVER_assigns(G_fs_calls, G_npaths, __CPROVER_object_whole(G_path))
+/* B1 */ __CPROVER_ensures(__CPROVER_return_value == NULL || (__CPROVER_is_fresh(__CPROVER_return_value, sizeof(StaticCacheEntry))
+    && ENTRY_OK(__CPROVER_return_value) && __CPROVER_return_value->bytes.src == file->id))
+/* B2 */ __CPROVER_ensures(G_fs_calls > __CPROVER_old(G_fs_calls))
+;
+void h_buildEntry(void)
+{
+  const iora_path *f;
+  iora_entry e = Assets_buildEntry(f);
+  IORA_CANARY("h_buildEntry: returns");
+  if (e) { IORA_CANARY("h_buildEntry: entry"); if (e->gzipBytes.present) { IORA_CANARY("h_buildEntry: gzip variant"); } } else { IORA_CANARY("h_buildEntry: null"); }
+}
+
+/* ------------------------------------------------------------------------------------------------------------------------------
+ * getStaticFilesystem / getTemplateFilesystem */
+#define FS_STATE_PRE(kind) \
+__CPROVER_requires(IORA_TRUE && __CPROVER_is_fresh(self, sizeof(*self)) && __CPROVER_is_fresh(self->_fs, sizeof(FsState))) \
+__CPROVER_requires(G_npaths == 3 && self->_fs->root.id == 0 && self->_fs->templatesRoot.id == 1 && self->_fs->staticsRoot.id == 2) \
+__CPROVER_requires(G_path[0].root_kind == 0 && G_path[1].root_kind == 2 && G_path[2].root_kind == 1 && G_root_kind == (kind)) \
+__CPROVER_requires(G_path[0].last_rel == 0 && G_path[1].last_rel == 0 && G_path[2].last_rel == 0 && G_fs_calls == 0 && G_locks == 0)
+
+GetStaticResult Assets_getStaticFilesystem_contract(const Assets *self, iora_sv path)
+FS_STATE_PRE(1)
+__CPROVER_assigns(G_fs_calls, G_npaths, __CPROVER_object_whole(G_path), G_locks)
+/* F1 content is returned only from an entry whose bytes were read under the full check (fresh read or cache, see the cache invariant) */
+__CPROVER_ensures(__CPROVER_return_value.status == Status_Found ==> (__CPROVER_return_value.blob.entry != NULL && ENTRY_OK(__CPROVER_return_value.blob.entry)))
+/* F2 a refused / missing request carries no content */
+__CPROVER_ensures(__CPROVER_return_value.status != Status_Found ==> __CPROVER_return_value.blob.entry == NULL)
+__CPROVER_ensures(__CPROVER_return_value.status == Status_Found || __CPROVER_return_value.status == Status_NotFound || __CPROVER_return_value.status == Status_Rejected)
+;
+void h_getStaticFilesystem(void)
+{
+  const Assets *a; iora_sv p;
+  GetStaticResult r = Assets_getStaticFilesystem(a, p);
+  IORA_CANARY("h_getStaticFilesystem: returns");
+  if (r.status == Status_Found) { IORA_CANARY("h_getStaticFilesystem: found"); }
+  if (r.status == Status_Rejected) { IORA_CANARY("h_getStaticFilesystem: rejected"); }
+  if (r.status == Status_NotFound) { IORA_CANARY("h_getStaticFilesystem: not found"); }
+}
+
+bool Assets_getTemplateFilesystem_contract(const Assets *self, iora_sv name, iora_strp *iora_ret)
+FS_STATE_PRE(2)
+__CPROVER_requires(__CPROVER_is_fresh(iora_ret, sizeof(*iora_ret)))
+__CPROVER_assigns(*iora_ret, G_fs_calls, G_npaths, __CPROVER_object_whole(G_path), G_locks)
+/* T1 */ __CPROVER_ensures(__CPROVER_return_value ==> (*iora_ret != NULL && (*iora_ret)->present && (*iora_ret)->read_ok))
+;
+void h_getTemplateFilesystem(void)
+{
+  const Assets *a; iora_sv n; iora_strp *r;
+  bool ok = Assets_getTemplateFilesystem(a, n, r);
+  IORA_CANARY("h_getTemplateFilesystem: returns");
+  if (ok) { IORA_CANARY("h_getTemplateFilesystem: found"); } else { IORA_CANARY("h_getTemplateFilesystem: nullopt"); }
 }
